@@ -54,6 +54,10 @@ def run():
     r = jitcheck.worker((insts, ('C03', 'C08'), timeout))
     rep.merge_counts(r['out']); cands += r['cands']
     import sys; sys.stderr.write('[c08] per-instruction done\n')
+    # premise of the per-instruction result: the code emitted for a CALL does not depend on neighbouring instructions (else: context programs)
+    import jitcontext
+    o3, c3, notes = jitcontext.run([0x85], ('C03', 'C08'), timeout, 'jit-helper-call')
+    rep.merge_counts(o3); cands += c3; rep.machinery_errors += notes
     items = [dict(name=n, prog=p.hex(), vm='mbuff', helpers=[list(h) for h in hs], min_mbuff=48, min_mem=1, role='jit-helper-call') for n, p, hs in helper_programs()]
     out, c2 = jitwhole.run_items(items, ('C03', 'C08'), timeout)
     rep.merge_counts(out); cands += c2
